@@ -171,6 +171,27 @@ fn num_of(tok: &str) -> Option<(f64, usize)> {
 
 /// Compare two report texts line by line and token by token; numeric tokens may differ by
 /// `units` units of their last printed digit plus `extra`.
+/// Sort the rows of every table (maximal runs of lines starting with "- ") so that a comparison does not
+/// depend on the order of rows: C17 requires the order not to vary between runs (checked across
+/// schedules on the unsorted text), not a particular order.
+pub fn sort_table_rows(lines: &[String]) -> Vec<String> {
+    let mut out = lines.to_vec();
+    let mut i = 0;
+    while i < out.len() {
+        if out[i].starts_with("- ") {
+            let mut j = i;
+            while j < out.len() && out[j].starts_with("- ") {
+                j += 1;
+            }
+            out[i..j].sort();
+            i = j;
+        } else {
+            i += 1;
+        }
+    }
+    out
+}
+
 pub fn compare_reports(expected: &[String], actual: &[String], units: f64, extra: f64, rel: f64) -> Option<String> {
     if expected.len() != actual.len() {
         // find first differing line for the message
@@ -533,7 +554,7 @@ fn render_and_check(text: &str, cfg: &EvalCfg) -> Outcome {
     // (iii) plain report states the result at the documented precision, tables sorted
     let expected = expected_plain(&ep);
     let actual: Vec<String> = plain.trim_end_matches('\n').lines().map(|s| s.to_string()).collect();
-    if let Some(m) = compare_reports(&expected, &actual, 0.5, 0.0, 0.0) {
+    if let Some(m) = compare_reports(&sort_table_rows(&expected), &sort_table_rows(&actual), 0.5, 0.0, 0.0) {
         return Outcome::Bad(Violation::new("plain_report", "content", format!("plain report does not state the computed result: {}", m)));
     }
     // (i) + (iii) XML
@@ -711,7 +732,7 @@ fn process_world(ctx: &Ctx, scn: &Scn, pp: &ProcPart, ex: &mut Exec, fp: &mut Fn
     // of their last digit
     let expected = expected_plain(&ep);
     let actual: Vec<String> = txt.trim_end_matches('\n').lines().map(|s| s.to_string()).collect();
-    if let Some(m) = compare_reports(&expected, &actual, 1.0, 0.0011, 8.0 * EPS) {
+    if let Some(m) = compare_reports(&sort_table_rows(&expected), &sort_table_rows(&actual), 1.0, 0.0011, 8.0 * EPS) {
         return Some(Violation::new("plain_report", "content", format!("{}: --txt report disagrees with the result recorded in --json: {}", what, m)));
     }
     let xml = String::from_utf8_lossy(&disk.read("out.xml").unwrap_or_default()).into_owned();
